@@ -63,6 +63,9 @@ NOT_TRANSFORM_PATH = {
 }
 
 
+LAST_ALLOW = {}
+
+
 def load_table(name):
     with open(os.path.join(TABLES, name)) as fh:
         return json.load(fh)["entries"]
@@ -167,6 +170,9 @@ def panic_sites(prog, chk, reach):
                 why = "D1 " + why
         if why is None and s.kind == "index":
             recv, need = D.index_requirement(body, s.term)
+            is_str = s.detail.startswith("<str as") or s.detail.startswith("<std::string::String as")
+            if is_str and need:
+                need = None  # a length test does not make a str slice safe (char boundaries): D3 or the table must decide
             if need is not None:
                 if need == 0:
                     why = "D2 full-range / from-0 slice never panics"
@@ -189,6 +195,26 @@ def panic_sites(prog, chk, reach):
             w = const_divisor(body, s)
             if w:
                 why = "D5 " + w
+        if why is None and s.kind == "doc-panics" and s.what.endswith("f32>::clamp"):
+            w = D.clamp_guard(body, s.bb, s.term)
+            if w:
+                why = "D7 " + w
+        if why is None and s.kind == "doc-panics" and s.what.endswith("random_range"):
+            w = D.range_guard(body, s.bb, s.term)
+            if w:
+                why = "D7 " + w
+        if why is None and s.kind == "assert:BoundsCheck":
+            w = D.bounds_guard(body, s.bb, s.term)
+            if w:
+                why = "D2 " + w
+        if why is None and s.kind in ("split_at", "vec-remove"):
+            w = D.search_offset_guard(body, s.bb, s.term, s.kind)
+            if w:
+                why = ("D3 " if s.kind == "split_at" else "D4 ") + w
+        if why is None and s.kind == "index" and "str" in s.detail.split(" as ")[0]:
+            w = D.str_index_guard(body, s.bb, s.term)
+            if w:
+                why = "D3 " + w
         # --- reviewed table
         if why is None:
             ent = allow.get((body.path, s.kind, s.what)) or allow.get((body.path, s.kind, s.decl)) or allow.get((body.path, s.kind, ""))
@@ -213,7 +239,9 @@ def panic_sites(prog, chk, reach):
             )
     chk.floor("A2.panic-site", len(sites), 250, "panic-capable site in reachable code")
     chk.note(f"panic sites: {len(sites)} total, {n_rule} discharged by rule, {n_table} by table")
-    stale = [k for k, e in allow.items() if e["used"] == 0]
+    global LAST_ALLOW
+    LAST_ALLOW = allow
+    stale = [k for k, e in allow.items() if e["used"] < e["count"]]
     if stale:
         chk.note(f"{len(stale)} table line(s) no longer match any site (harmless): {stale[:5]}")
 
